@@ -135,6 +135,24 @@ def many_sids_plan(rkspec, seed: int, k: int, fl_p: str, fl_u: str) -> dict:
             "ops": ops, "entropy_script": [], "mode": "pub", "family": "many-sids"}
 
 
+def clock_plan(rkspec, seed: int, k: int) -> dict:
+    """Encrypt side served from the key cache (root key loaded) while the wall clock keeps moving and an L2 / L1 / L0 interval boundary
+    passes during the call: the KEK must still be the one of the key identifier written into the blob."""
+    r = __import__("random").Random(seed)
+    l1, l2 = r.choice(((3, 5), (3, 31), (31, 31), (0, 0), (r.randrange(32), r.randrange(32))))
+    tick = r.choice((100, 100, 300, 900, 2500))
+    boundary = gkdi.interval_start_filetime(POS[0], l1, l2) + gkdi.B
+    ft = boundary - r.randrange(1, 14) * (tick // 100) + r.randrange(0, max(1, tick // 100))
+    fl = r.choice(("sync", "async"))
+    ops = [{"op": "load_key", "rk": 0},
+           {"op": "protect", "fl": fl, "sid": SID, "rk": 0, "net": "offline", "data": 19},
+           {"op": "protect", "fl": r.choice(("sync", "async")), "sid": SID, "rk": 0, "net": "offline", "data": 7},
+           {"op": "unprotect", "fl": r.choice(("sync", "async")), "net": "offline", "blob": {"from_op": 1}},
+           {"op": "unprotect", "fl": r.choice(("sync", "async")), "net": "offline", "blob": {"from_op": 2}}]
+    return {"seed": seed, "clock_ft": ft, "clock_tick_ns": tick, "root_keys": [rkspec], "caller_sids": [SID], "ctx": {"kind": "stub", "legs": 2, "sig": 16},
+            "ops": ops, "entropy_script": [], "mode": "nonce", "family": "moving-clock", "clock_boundary": boundary}
+
+
 def _kek_job(job):
     """Decrypt-side KEK for a reference-made public-key (or nonce) key identifier through the library's own functions."""
     import hashlib
@@ -197,7 +215,7 @@ def judge(plan, tr: P.Trace):
     unps = [ot for ot in tr.ops if ot.op["op"] == "unprotect"]
     if plan.get("family") == "many-sids":
         probes["many_sids_one_position"] = 1
-    if len(prots) > 1 and plan.get("family") not in ("threads", "same-prime", "many-sids"):
+    if len(prots) > 1 and plan.get("family") not in ("threads", "same-prime", "many-sids", "moving-clock"):
         probes["two_sids_same_position"] = 1
     if plan.get("family") == "threads":
         probes["thread_plans"] = 1
@@ -206,6 +224,14 @@ def judge(plan, tr: P.Trace):
         probes["nonce_with_structure_magic"] = 1
     if plan.get("family") == "same-prime":
         probes["two_groups_same_prime"] = 1
+    if plan.get("family") == "moving-clock":
+        probes["moving_clock_plans"] = 1
+        for prot in prots:
+            if prot.outcome.kind == "ok":
+                kid = cms.parse_blob(prot.outcome.value)["key_identifier"]
+                if gkdi.interval_start_filetime(kid["l0"], kid["l1"], kid["l2"]) >= plan["clock_boundary"]:
+                    probes["boundary_passed_before_key_id"] = 1
+                    break
     for prot, unp in zip(prots, unps):
         if plan.get("family") == "same-prime":
             rk = tr.root_keys[prot.op["rk"]]
@@ -260,6 +286,8 @@ def _judge_pair(plan, tr, rk, prot, unp, probes):
                 probes["lz_public_value"] = 1
             if kl > (p_.bit_length() + 7) // 8:
                 probes["key_length_wider_than_modulus"] = 1
+            if kl != gkdi.unpack_dh_params(rk.eff_secret_params)[0]:
+                probes["key_blob_wider_than_group_params"] = 1
         else:
             _c, kl, x, y = gkdi.unpack_ecdh_key(ki)
             if x >> (8 * (kl - 1)) == 0:
@@ -301,7 +329,7 @@ class C03(common.Check):
     components = {"client": "real (new_kek / get_kek / compute_kek / compute_public_key through the public API)", "entropy": "simulated, scripted draws",
                   "DC": "model (RefDC, public-key and seed replies)", "independent implementation": "ref.gkdi + ref.ec (own P-256/P-384 arithmetic, pow() DH, hashlib KDFs)"}
     assumptions = ["reference calibrated on the 16 Windows blobs (gate before every run)", "hash x algorithm sweep is workload parameterisation"]
-    required_fired = ("two_sids_same_position", "key_length_wider_than_modulus", "lz_shared_secret", "lz_public_value", "lz_coord_x", "lz_coord_y", "lz_nonce", "agree_DH_pub", "agree_ECDH_P256_pub", "agree_ECDH_P384_pub", "agree_DH_nonce", "thread_plans", "thread_overlap", "nonce_with_structure_magic", "two_groups_same_prime", "many_sids_one_position", "pure_thread_cases")
+    required_fired = ("two_sids_same_position", "key_length_wider_than_modulus", "lz_shared_secret", "lz_public_value", "lz_coord_x", "lz_coord_y", "lz_nonce", "agree_DH_pub", "agree_ECDH_P256_pub", "agree_ECDH_P384_pub", "agree_DH_nonce", "thread_plans", "thread_overlap", "nonce_with_structure_magic", "two_groups_same_prime", "many_sids_one_position", "pure_thread_cases", "moving_clock_plans", "boundary_passed_before_key_id", "key_blob_wider_than_group_params")
 
     def cases(self, tier, seed):
         rng = prng.stream(seed, "C03")
@@ -342,10 +370,17 @@ class C03(common.Check):
             priv_len = rng.choice((kl * 8, kl * 8 - 3, kl * 8 - 1, max(8, kl * 8 - 8), 9, 12, kl * 8 + 16, 512))  # also wider than the modulus
             spec = [52 + i % 3, offline.HASHES[i % 4], "DH", {"dh": grp, "priv_len": priv_len}]
             out.append(base_plan(spec, rng.getrandbits(31), "pub", rng.choice(("sync", "async")), rng.choice(("sync", "async"))))
+            if i % 6 == 1:
+                # the DC hands out the group public key in a blob padded wider than the group's own parameter blob
+                out[-1]["dc"] = {"byz": {"dh_pub_key_length": grp[0] + rng.choice((1, 2, 4, 5))}}
         n_rand = 200 if tier == "quick" else 6000
         for i in range(n_rand):
             spec = [53, offline.HASHES[i % 4], offline.SECRETS[(i // 4) % 3]]
             out.append(base_plan(spec, rng.getrandbits(31), rng.choice(("pub", "pub", "nonce")), rng.choice(("sync", "async")), rng.choice(("sync", "async"))))
+            if spec[2] == "DH" and out[-1]["mode"] == "pub" and i % 2:
+                out[-1]["dc"] = {"byz": {"dh_pub_key_length": 256 + rng.choice((1, 4, 8, 256))}}
+        for k in range(400 if tier == "quick" else 20000):
+            out.append(clock_plan([60, offline.HASHES[k % 4], offline.SECRETS[(k // 4) % 3]], rng.getrandbits(31), k))
         return out
 
     def run_case(self, case):
